@@ -104,9 +104,9 @@ impl TwoWorld {
         let m1 = v.nick(0).unwrap_or("m1").to_string();
         match self.kind {
             Hidden::SecretChannel => {
-                let mut b: Vec<String> = ["LIST", "LIST #s", "LIST #s,#p", "NAMES", "NAMES #s", "NAMES #s,#p", "WHO #s", "WHO m1", "WHO *", "WHO m*", "WHO *1", "WHOIS m1", "WHOIS m1,m2", "WHOIS m*"].iter().map(|s| s.to_string()).collect();
+                let mut b: Vec<String> = ["LIST", "LIST #s", "LIST #s,#p", "LIST #p,#s", "LIST #p,#s,#nochan", "NAMES", "NAMES #s", "NAMES #s,#p", "NAMES #p,#s", "WHO #s", "WHO m1", "WHO *", "WHO m*", "WHO *1", "WHOIS m1", "WHOIS m1,m2", "WHOIS m*"].iter().map(|s| s.to_string()).collect();
                 if self.full {
-                    b.extend(["NAMES #p,#s", "LIST #p,#s", "WHO #p", "WHOIS m2", "WHO *!*@*", "WHO ?1"].iter().map(|s| s.to_string()));
+                    b.extend(["NAMES #nochan,#p,#s", "LIST #nochan,#s,#p", "WHO #p", "WHOIS m2", "WHO *!*@*", "WHO ?1"].iter().map(|s| s.to_string()));
                 }
                 b
             }
